@@ -450,6 +450,7 @@ func runHarness(prog *ssa.Program, cfg *HarnessCfg, knownOpen map[string]bool, v
 	sol.DeclareRaw("(declare-fun fn_lower (String) String)")
 	sol.DeclareRaw("(declare-fun fn_upper (String) String)")
 	e.ufFactSet = map[string]bool{}
+	e.noModel = map[string]bool{}
 	e.ipStrOrigin = map[string]ipOrigin{}
 	e.declareUFs()
 	st := &State{heap: map[int]*Obj{}, globals: map[*ssa.Global]int{}, side: map[string]Value{}, covers: map[string]bool{}, labelN: map[string]int{}, ghost: map[string]Value{}}
